@@ -817,6 +817,8 @@ class Dict(dict, base.Symbolic, pg_typing.CustomTyping):
     """Update Dict with the same semantic as update on standard dict."""
     updates = dict(other) if other else {}
     updates.update(kwargs)
+    # Keys are keys (not key paths), as for `dict.update`.
+    updates = {utils.KeyPath(k): v for k, v in updates.items()}
     self.rebind(
         updates, raise_on_no_change=False, skip_notification=True)
 
